@@ -594,3 +594,113 @@ func (p *Program) usedAsReceiverUnguarded(v ssa.Value, depth int) string {
 func init() {
 	addRule("C19", Rule{ID: "C19.R10", Min: 1, Statement: "a dependency that some constructor of a type leaves unset is never called without a nil test", Run: constructorCompletenessRule})
 }
+
+// ---------------------------------------------------------------------------------------------
+// C01.R9 / C02.R7: the list of previous revisions that decides which adoptions are permitted is,
+// on every path, the result of the previous-revision lookup — never a nil/empty shortcut ("no
+// handover happens after the rollout succeeded"): with an empty list a permitted adoption from a
+// still-active previous revision is refused and reported as a collision.
+func previousListAlwaysLookedUpRule(c *Ctx) {
+	p := c.P
+	n := 0
+	isPrevList := func(t types.Type) bool {
+		sl, ok := t.Underlying().(*types.Slice)
+		return ok && namedTypeString(sl.Elem()) == pkgControllers+".PreviousObjectSet"
+	}
+	for _, fn := range p.productFuncs() {
+		pk := funcPkgPath(fn)
+		if pk != pkgObjectSets && pk != pkgObjSetPhases {
+			continue
+		}
+		for _, call := range callsIn(fn) {
+			for ai, a := range call.Common.Args {
+				if !isPrevList(a.Type()) {
+					continue
+				}
+				// judge at the outermost frame only: where the value is not a parameter passed through
+				if _, isParam := stripConv(a).(*ssa.Parameter); isParam {
+					continue
+				}
+				n++
+				o := c.Ob(fn, fmt.Sprintf("previous-list-arg:%s#%d", calleeName(call.Common), ai), call.Instr, c.rule.Statement)
+				bad := ""
+				for _, pv := range p.possibleValues(a) {
+					v := stripConv(pv)
+					if isNilConst(v) {
+						bad = "nil"
+					} else if ln, ok := sliceLiteralLen(v); ok && ln == 0 {
+						bad = "an empty literal"
+					} else if _, isMake := v.(*ssa.MakeSlice); isMake {
+						bad = "a freshly made list"
+					}
+				}
+				if bad == "" {
+					o.OK()
+				} else {
+					o.Fail("the previous-revision list handed to %s can be %s instead of the lookup's result: adoption from a still-active previous revision (its objects re-created, or taken over late) is then refused and reported as CollisionDetected", calleeName(call.Common), bad)
+				}
+			}
+		}
+	}
+	if n < 2 {
+		c.AnchorLost(fmt.Sprintf("call arguments of type []controllers.PreviousObjectSet that are not passed-through parameters (found %d)", n))
+	}
+}
+
+// listerUnfilteredRuleFor: see listerUnfilteredRule (rules_extra3.go); the same obligation for the
+// ObjectDeployment controller's list of ObjectSets, which feeds the wait-for-revision guard, the
+// newest-revision detection and spec.previous of the next revision.
+func objectSetListerCompleteRule(c *Ctx) {
+	p := c.P
+	n := 0
+	for _, fn := range p.FuncsIn(pkgObjDeploy) {
+		if fn.Parent() != nil || fn.Signature.Results().Len() != 2 {
+			continue
+		}
+		rt := fn.Signature.Results().At(0).Type()
+		sl, ok := rt.Underlying().(*types.Slice)
+		if !ok || !strings.Contains(types.TypeString(sl.Elem(), nil), "ObjectSet") {
+			continue
+		}
+		hasList := false
+		for _, cc := range callsIn(fn) {
+			if calleeName(cc.Common) == "List" && cc.Common.IsInvoke() {
+				hasList = true
+			}
+		}
+		if !hasList {
+			continue
+		}
+		n++
+		for _, rc := range p.returnCases(fn) {
+			if isNilConst(stripConv(rc.Results[0])) {
+				continue
+			}
+			o := c.Ob(fn, "returns-all-items", rc.Ret, c.rule.Statement)
+			okAll := true
+			for _, pv := range p.possibleValues(rc.Results[0]) {
+				call, _ := asCall(pv)
+				if call == nil || calleeName(call.Common()) != "GetItems" {
+					okAll = false
+				}
+			}
+			if okAll {
+				o.OK("returns GetItems() of the listed object")
+			} else {
+				o.Fail("the list of ObjectSets returned (%s) is not the complete result of the API list: a revision that is filtered out here (terminating, archived, …) is invisible to the wait-for-revision guard, to the newest-revision detection and to spec.previous of the next revision", p.describe(rc.Results[0]))
+			}
+		}
+	}
+	if n == 0 {
+		c.AnchorLost("function listing the ObjectSets of an ObjectDeployment in " + pkgObjDeploy)
+	}
+}
+
+func init() {
+	st := "the previous-revision list handed to the phase reconciler is the lookup's result on every path"
+	addRule("C01", Rule{ID: "C01.R9", Min: 2, Statement: st, Run: previousListAlwaysLookedUpRule})
+	addRule("C02", Rule{ID: "C02.R7", Min: 2, Statement: st, Run: previousListAlwaysLookedUpRule})
+	st2 := "the ObjectDeployment controller works on the complete list of its ObjectSets (nothing is filtered out before the revision logic sees it)"
+	addRule("C07", Rule{ID: "C07.R11", Min: 1, Statement: st2, Run: objectSetListerCompleteRule})
+	addRule("C08", Rule{ID: "C08.R9", Min: 1, Statement: st2, Run: objectSetListerCompleteRule})
+}
